@@ -48,5 +48,11 @@ def run(ctx):
                        "distinct = by hash of the action sequence and binding")
     ctx.assumptions += ["keys are pairs of int64, values (int64, bytes); other tuple encodings are not driven (C15 is n/a)",
                         "Revert is only issued after at least one Checkpoint"]
-    ctx.replay_behaviours(binary, [c for c in cs], args=["map"], critical=critical, wrap=lambda c: c,
+    def corrupt(c):
+        # flip one expected value in the last step's dictionary
+        g = c["steps"][-1]["exp"]["get"]
+        g[0] = 1 if g[0] != 1 else 2
+        return c
+    ctx.binding_selftest(binary, cs[0], corrupt, args=["map"], env={"VERIF_ONLY": "c11"})
+    ctx.replay_behaviours(binary, [c for c in cs], args=["map"], critical=critical, wrap=lambda c: c, env={"VERIF_ONLY": "c11"},
                           fingerprint=lambda c, r: "C11:" + str(r.get("fp")))
